@@ -54,6 +54,7 @@ def mutate_all(orig, make_copy, how):
     from mindsdb_sql.parser.ast import Identifier, Constant
     base = jdump(proj(orig, private=True))
     base_s = safe_str(orig)
+    by_path = {tuple(pth): o for o, pth in mutables(orig).values()}
     problems = []
     n = 0
     targets = list(mutables(make_copy()).values())
@@ -103,6 +104,17 @@ def mutate_all(orig, make_copy, how):
             except Exception:   # noqa
                 continue
             n += 1
+            # equal objects print the same: the mutated node against its counterpart in the original
+            twin = by_path.get(tuple(path))
+            mobj = obj if mi == 0 else obj2
+            if twin is not None and hasattr(mobj, 'to_string') and type(twin) is type(mobj):
+                try:
+                    if (twin == mobj) is True and safe_str(twin) != safe_str(mobj):
+                        problems.append({'path': '/'.join(str(p) for p in path), 'mutation': mname, 'how': how,
+                                         'class': type(mobj).__name__, 'equal_but_prints_differently': True})
+                        return n, problems
+                except Exception:   # noqa
+                    pass
             if jdump(proj(orig, private=True)) != base or safe_str(orig) != base_s:
                 problems.append({'path': '/'.join(str(p) for p in path), 'mutation': mname, 'how': how,
                                  'class': type(ms[idx][0]).__name__})
@@ -213,7 +225,9 @@ def run(ctx):
             o = {'kind': 'tree', 'raises': 1 if 'raises' in f else 0, 'shared': f.get('shared', 0),
                  'equal': int(bool(f.get('equal'))), 'symmetric': int(bool(f.get('symmetric'))),
                  'reflexive': int(bool(f.get('reflexive'))), 'same_print': int(bool(f.get('same_print'))),
-                 'same_projection': int(bool(f.get('same_projection'))), 'damaged': len(f.get('damaged') or [])}
+                 'same_projection': int(bool(f.get('same_projection'))),
+                 'damaged': len([d for d in (f.get('damaged') or []) if not d.get('equal_but_prints_differently')]),
+                 'eqprint': len([d for d in (f.get('damaged') or []) if d.get('equal_but_prints_differently')])}
             obs.append(o)
             meta.append(('tree', t, f))
     for p in plans:
@@ -243,6 +257,9 @@ def run(ctx):
                 root = type(case.get('_root', None)).__name__
                 det = f.get('damaged') or f.get('shared_paths') or f.get('raises')
                 where = ''
+                if flag == 'EqualObjectsPrintDifferently':
+                    d0 = [d for d in (f.get('damaged') or []) if d.get('equal_but_prints_differently')]
+                    where = ':%s.%s' % (d0[0]['class'], d0[0]['mutation']) if d0 else ''
                 if flag in ('SharedMutableObject', 'MutationOfCopyChangesOriginal'):
                     paths = f.get('shared_paths') or [d['path'] for d in (f.get('damaged') or [])]
                     # the attribute name at which sharing starts is the input-side coordinate
